@@ -160,6 +160,32 @@ static void replaced_cases(Harness &H) {
           H.nontriv();
           H.end();
         }
+      // ... and one whose data was MOVED away: the target evaluates as the source did, the moved-from spline is
+      // interval-free, i.e. evaluates to zero everywhere and front()/back() throw the library's exception
+      for (int how = 0; how < 2; how++) {
+        if (!H.take()) continue;
+        H.begin(std::string("nonuni5;moved;") + (how ? "move-construction" : "move-assignment") + ";" + wstr(a) + ";" + wstr(b));
+        auto src = mkspline_p<S, 2>(g, a, a.nint() * 3 + 1);
+        RefPP ex = alpha(src);
+        auto dst = mkspline_p<S, 2>(g, b, b.nint() * 3 + 2);
+        (void)dst(mk<S>((pts[b.s] + pts[b.s + 1]) / 2));
+        Outcome oc = attempt([&] {
+          if (how == 0) dst = std::move(src);
+          else { Spline<S, 2> t(std::move(src)); dst = t; }
+          for (size_t i = 0; i + 1 < n; i++) {
+            mpq_class x = (pts[i] + 3 * pts[i + 1]) / 4;
+            H.count("point_evaluations", 2);
+            if (val(dst(mk<S>(x))) != peval(ex.get(i), x)) { H.fail("eval-after-replacement", "after the move the target evaluates to something else than the source did at x = " + x.get_str()); break; }
+            if (val(src(mk<S>(x))) != 0) { H.fail("eval-moved-from", "the moved-from spline evaluates to " + val(src(mk<S>(x))).get_str() + " at x = " + x.get_str() + " (it must be interval-free)"); break; }
+          }
+        });
+        if (oc.threw()) H.fail("eval-throw", "evaluation around a move threw " + oc.str());
+        Outcome of = attempt([&] { (void)src.front(); }), ob = attempt([&] { (void)src.back(); });
+        if (of.o != Out::BSPLINE_EXC || ob.o != Out::BSPLINE_EXC) H.fail("frontback", "front()/back() of a moved-from (interval-free) spline: " + of.str() + " / " + ob.str());
+        H.cls("moved");
+        H.nontriv();
+        H.end();
+      }
     }
 }
 
